@@ -217,6 +217,7 @@ class Sim:
     def spawn(self, name: str, fn, *args, kind: str = "proc", **kwargs) -> Task:
         task = Task(self, name, fn, args, kwargs, kind)
         parent = current_task()
+        task.parent_task = parent
         if parent is not None:
             parent.vc[parent.tid] = parent.vc.get(parent.tid, 0) + 1
             task.vc.update(parent.vc)
@@ -352,6 +353,14 @@ class Sim:
                         self.kill(t)
                     self.verdict = "killed_all"
                     break
+                km = self.faults.get("kill_main_at")
+                if km is not None and self.steps >= km and self.main.state not in ("done", "killed"):
+                    # only the main process dies (SIGKILL): its children are orphaned and keep running
+                    self.log.append(("note", "fault", "KILL-MAIN", self.steps))
+                    fired = self.faults.setdefault("_fired", {})
+                    fired["kill_main"] = 1
+                    self.kill(self.main)
+                    continue
                 live = [t for t in alive if not t.daemon]
                 if not live:
                     self.verdict = Verdict.COMPLETE
